@@ -475,6 +475,9 @@ class _Inliner:
       if isinstance(st, ast.Try):
         for h in st.handlers:
           h.body = self._do_block(h.body, fn, mod_helpers, meths)
+      if isinstance(st, ast.FunctionDef) and st is not fn:
+        # nested def (closure): its statements call the same helpers; `self` is the enclosing method's
+        st.body = self._do_block(st.body, fn, mod_helpers, meths)
       rep = self._try_inline(st, fn, mod_helpers, meths)
       if rep is None:
         rep = self._hoist(st, fn, mod_helpers, meths)
